@@ -361,6 +361,11 @@ static void run_dynrf(const Case& c) {
                 for (auto& p : tp) std::cout << ' ' << hx(p.x) << ' ' << hx(p.y);
                 std::cout << '\n';
             }
+        } else if (op.size() > 1 && op[0] == 'A') {
+            // A<k>: k applications without printing (long histories of the modulation queue)
+            uint32_t kk = std::stoul(op.substr(1));
+            for (uint32_t q = 0; q < kk && applied < steps; q++) { d->apply(); applied++; }
+            std::cout << "ops " << op << '\n';
         } else if (op == "s") {
             st->apply();
             std::cout << "ops s\n";
@@ -414,14 +419,18 @@ static void run_fptrack(const Case& c) {
 
 // rot <id> <n> <it> <nb> <K> <every> <lin|sin> ; extra = qmin qmax pmin pmax qscale pscale angle f_RF slip1 slip2 E0
 //   [revpart V_RF V0] ; data ; iterates RF kick (g1->g2) and drift (g2->g1), prints the centroid of bunch 0
-static void centroid_line(const PhaseSpace& ps, uint32_t n, uint32_t k) {
-    double m0 = 0, mq = 0, mp = 0;
-    const float* d = ps.getData();
-    for (uint32_t x = 0; x < n; x++) for (uint32_t y = 0; y < n; y++) {
-        double v = d[x * n + y]; m0 += v; mq += v * ps.q(x); mp += v * ps.p(y);
+static void centroid_line(const PhaseSpace& ps, uint32_t n, uint32_t k, uint32_t nb = 1) {
+    // one line per bunch
+    const float* d0 = ps.getData();
+    for (uint32_t b = 0; b < nb; b++) {
+        double m0 = 0, mq = 0, mp = 0;
+        const float* d = d0 + static_cast<size_t>(b) * n * n;
+        for (uint32_t x = 0; x < n; x++) for (uint32_t y = 0; y < n; y++) {
+            double v = d[x * n + y]; m0 += v; mq += v * ps.q(x); mp += v * ps.p(y);
+        }
+        std::cout << "vals " << hx(static_cast<float>(k)) << ' ' << hx(static_cast<float>(mq / m0)) << ' '
+                  << hx(static_cast<float>(mp / m0)) << ' ' << hx(static_cast<float>(m0)) << '\n';
     }
-    std::cout << "vals " << hx(static_cast<float>(k)) << ' ' << hx(static_cast<float>(mq / m0)) << ' '
-              << hx(static_cast<float>(mp / m0)) << ' ' << hx(static_cast<float>(m0)) << '\n';
 }
 static void run_rot(const Case& c) {
     uint32_t n = std::stoul(c.head[2]), it = std::stoul(c.head[3]), nb = std::stoul(c.head[4]);
@@ -453,11 +462,11 @@ static void run_rot(const Case& c) {
     std::cout << '\n';
     print_data("off", rf->offsets().data(), n);
     print_data("off", dm.offsets().data(), n);
-    centroid_line(*g1, n, 0);
+    centroid_line(*g1, n, 0, nb);
     for (uint32_t k = 1; k <= K; k++) {
         rf->apply();
         dm.apply();
-        if (k % every == 0 || k == K) centroid_line(*g1, n, k);
+        if (k % every == 0 || k == K) centroid_line(*g1, n, k, nb);
     }
     print_data("out", g1->getData(), static_cast<size_t>(n) * n * nb);
 }
